@@ -142,6 +142,14 @@ def check_rejection(ctx, rep, RULE="K1"):
                 test_holder = par.get(id(p)) if neg else p
                 if isinstance(test_holder, ast.If) and (test_holder.test is p or test_holder.test is s.node):
                     fail_body = test_holder.body if neg else test_holder.orelse
+                    if not neg and not fail_body and always_exits(test_holder.body):
+                        # `if mol.kekulize(): return mol` followed by the failure handling: the rest of the block
+                        holder_parent = par.get(id(test_holder))
+                        for fld in ("body", "orelse", "finalbody"):
+                            blk = getattr(holder_parent, fld, None) if holder_parent is not None else None
+                            if isinstance(blk, list) and any(x is test_holder for x in blk):
+                                i_ = [k_ for k_, x in enumerate(blk) if x is test_holder][0]
+                                fail_body = blk[i_ + 1:]
                     raises = [x for st in fail_body for x in ast.walk(st) if isinstance(x, ast.Raise)]
                     if fail_body and always_exits(fail_body) and raises and all(_raises(ctx, f, x, enc_err) for x in raises):
                         ok = True
@@ -482,7 +490,7 @@ def _blocks(fnode):
 class Emptied(Forward):
     """state True once the delocalised-subgraph field is known empty on this path"""
 
-    def __init__(self, f, field, ik_name):
+    def __init__(self, f, field, ik_name, cls=None, depth=0):
         super().__init__(f.node)
         self.f = f
         self.field = field
@@ -490,6 +498,21 @@ class Emptied(Forward):
         self.selfn = f.posparams[0]
         self.bad = []
         self.n_true = 0
+        self.cls = cls
+        self.depth = depth
+        self.exits = []          # states at every normal exit (used for helper summaries)
+
+    def _helper_clears(self, name):
+        """a private method of the class leaves the field empty on every normal exit (e.g. `_localize_bonds` ends with
+        `self.<field> = dict()`)"""
+        if self.cls is None or self.depth >= 2:
+            return False
+        m = self.cls.methods.get(name)
+        if m is None or m is self.f:
+            return False
+        e = Emptied(m, self.field, self.ik, self.cls, self.depth + 1)
+        e.run(False)
+        return bool(e.exits) and all(e.exits)
 
     def join(self, a, b):
         return a and b
@@ -515,6 +538,10 @@ class Emptied(Forward):
         if isinstance(st, ast.Expr) and isinstance(st.value, ast.Call) and isinstance(st.value.func, ast.Attribute) \
                 and st.value.func.attr == "clear" and self._is_field(st.value.func.value):
             return True
+        call = st.value if isinstance(st, (ast.Expr, ast.Assign)) and isinstance(getattr(st, "value", None), ast.Call) else None
+        if call is not None and isinstance(call.func, ast.Attribute) and isinstance(call.func.value, ast.Name) and call.func.value.id == self.selfn \
+                and self._helper_clears(call.func.attr):
+            return True
         for n in ast.walk(st):
             # anything that may add to the field again
             if isinstance(n, ast.Subscript) and isinstance(n.ctx, ast.Store) and self._is_field(n.value):
@@ -524,6 +551,8 @@ class Emptied(Forward):
         return state
 
     def exit(self, kind, node, state):
+        if kind in ("return", "end"):
+            self.exits.append(bool(state))
         if kind == "return" and isinstance(node, ast.Return) and isinstance(node.value, ast.Constant) and node.value.value is True:
             self.n_true += 1
             if not state:
@@ -560,7 +589,7 @@ def check_completion(ctx, rep, K, IK, RULE="K4"):
     ok = len(reg) >= 2
     rep.ob(RULE, ok, IK.node, IK, construct="aromatic atoms / bonds are registered in %s" % field, how="by code reachable from %s" % sorted(reg),
            witness=None if ok else "the field is_kekulized() tests is not the one aromatic atoms and bonds are registered in", key="ds-field")
-    e = Emptied(K, field, IK.name)
+    e = Emptied(K, field, IK.name, ctx.db.classes[MG])
     e.run(False)
     ok = not e.bad and e.n_true >= 1
     rep.ob(RULE, ok, e.bad[0] if e.bad else K.node, K, construct="success returns of kekulize() (%d)" % e.n_true,
